@@ -709,7 +709,7 @@ func TestVf_C03(t *testing.T) {
 		wg.Add(1)
 		go func(wk int) {
 			defer wg.Done()
-			for i := wk; i < len(cases); i += workers {
+			for i := wk; i < len(cases) && !run.Enough(); i += workers {
 				run.Case(cases[i])
 				if i < 3 {
 					run.Sample(cases[i])
